@@ -16,6 +16,18 @@ import (
 
 // verifIndexChannelDB builds a self-indexed timestamp channel holding d domains with 1..s samples each.
 func verifIndexChannelDB(d, s int) (*DB, []telem.TimeStamp, []domain.VerifDomainSpec) {
+	return verifIndexChannelDBAligned(d, s, false)
+}
+
+// verifIndexChannelDBAligned: with aligned set, every domain starts exactly on its first sample (the documented
+// writer contract: Start is the timestamp of the first sample written).
+func verifIndexChannelDBAligned(d, s int, aligned bool) (*DB, []telem.TimeStamp, []domain.VerifDomainSpec) {
+	return verifIndexChannelDBShaped(d, s, aligned, false)
+}
+
+// verifIndexChannelDBShaped: tightEnd additionally makes every domain end exactly one nanosecond after its last
+// sample, which is what every commit of an index channel through the cesium API produces (end = high-water + 1).
+func verifIndexChannelDBShaped(d, s int, aligned, tightEnd bool) (*DB, []telem.TimeStamp, []domain.VerifDomainSpec) {
 	var (
 		specs []domain.VerifDomainSpec
 		all   []telem.TimeStamp
@@ -26,8 +38,14 @@ func verifIndexChannelDB(d, s int) (*DB, []telem.TimeStamp, []domain.VerifDomain
 		start := telem.TimeStamp(verifInt64("d.start"))
 		verifAssume(start > prev || (i > 0 && start == prev))
 		ts, data := index.VerifStamps("t", n, start-1)
+		if aligned {
+			verifAssume(ts[0] == start)
+		}
 		end := telem.TimeStamp(verifInt64("d.end"))
 		verifAssume(end > ts[n-1])
+		if tightEnd {
+			verifAssume(end == ts[n-1]+1)
+		}
 		specs = append(specs, domain.VerifDomainSpec{Start: start, End: end, Data: data})
 		all = append(all, ts...)
 		prev = end
